@@ -322,7 +322,7 @@ func (r *Real) expectType(h model.Heap, v model.Val) at.Type {
 }
 
 // Malformed tree-form strings: TypeOfTF must be Undefined without panic, GetTF must panic.
-var malformed = []string{"", ".", "#", "..", "##", ".#", "#.", "a", "0", "x.y", ".a.", ".a#", "#0.", "#0#", "#x", "#", "# 0", "#0x", ".a..b", ".a.#0", "#0##1", "#-", "#1e3", "#99999999999999999999999"}
+var malformed = []string{"", ".", "#", "..", "##", ".#", "#.", "a", "0", "x.y", ".a.", ".a#", "#0.", "#0#", "#x", "#", "# 0", "#0x", ".a..b", ".a.#0", "#0##1", "#-", "#1e3", "#99999999999999999999999", "#18446744073709551616", "#18446744073709551617", "#18446744073709551616.a", "#36893488147419103232#0"}
 
 func (r *Real) observeTF(st *model.State, cfg ObsCfg) *Mismatch {
 	h := st.Heap
